@@ -24,6 +24,14 @@ CLAIMS["C09"] = ("Coq unique-decoding theorems over a transliterated token model
  "Proved for all command definitions (unbounded lists, arbitrary bytes): the token sequence fed to the hash chain determines every signature-relevant part (name, inputs, outputs, flags, args, env, deps, deps-style, explicit signature) and nothing else; every list-boundary move, adjacent-argument merge/shift and single-attribute edit changes it; under the ideal-hash premise signatures differ iff relevant parts differ; the re-run decision (signature / output info / always-out-of-date / stored value kind) is characterised exactly; the pre-repair chain is refuted with witnesses. Every run: 1800+ generated definitions loaded by the real BuildFile loader must hash to exactly the fold of the real llvm::hash_combine over the model's tokens; 1300+ one-attribute pairs must differ; signatures recomputed in a second process must match; CLI histories check null builds across processes and re-runs after each kind of edit.",
  "Trusted: Coq kernel, hand-written token model (tied by exact 64-bit equality on generated definitions), sig_driver.cpp, extraction, comparator. llvm::hash_combine idealised as collision-free on compared token lists (explicit theorem premise). working-directory/control-enabled are not hashed by design (documented list).",
  "DESIGN.md 4/C09")
+CLAIMS["C10"] = ("Coq theorems (finite case analysis lifted by induction over consumption chains of any length) over a transliterated model of getResultForOutput / provideValue skip logic / isResultValid of the build-system commands; model tied by an exhaustive probe of the real functions on real command instances (all tool x node kind x value kind x missing combinations) and by failure histories through the CLI and the real BuildSystemFrontend with cancelling and keep-going delegates",
+ "Proved for every tool, node kind, flag combination and chain length: a failing producer value (failed, propagated failure, cancelled) makes every regular consumer skip without launching and pass the failure on; the skip flag is sticky over any input sequence; no non-successful stored value is ever valid (so the engine re-attempts it and everything downstream); the target task's report is characterised exactly; the three hops that launder a failure in the current code (phony virtual output, symlink must-follow inputs, delegate-skipped command) are excluded by name and refuted with witnesses (KNOWN findings). Every run: the real decision functions are probed exhaustively (~19k entries) against the model and an independent oracle; generated descriptions with any subset of failing commands (exit status, signal, missing file, blocked output) run serial and parallel, cancel-on-failure (CLI) and keep-going (driver): nothing downstream runs, failure reported, retried next build, converges to the clean build after repair.",
+ "Trusted: Coq kernel, hand-written decision model (tied by exhaustive table + histories), bsys_driver.cpp, extraction, Python graph oracle. Engine property C02 (invalid value => re-run) is cited, not re-proved here. Node-rule validity lambdas are reachable only through histories. Known findings: launder-phony-virtual, launder-symlink-mustfollow, launder-delegate-skip (keep-going clients only).",
+ "DESIGN.md 4/C10")
+CLAIMS["C11"] = ("Coq round-trip, error-reporting and totality theorems over transliterated models of MakefileDepsParser, DependencyInfoParser and the ShellCommand glue that turns parser events into discovered-dependency keys; models tied by exhaustive/differential execution against the real parsers (normal and ASan/UBSan builds, exact-size unterminated buffers) and by CLI histories that touch discovered paths",
+ "Proved for all targets and path lists meeting the exact well-formedness conditions (each shown necessary by a counter-example): the documented escaping round-trips byte for byte for every separator and line-end choice, interior and trailing colons included, for single and multiple rules; malformed files (missing colon, bad prerequisite) yield the error event at the stated position and fail the command; dependency-info files round-trip and each malformation yields exactly its error; relative words are resolved against the command's working directory for both styles (dependency-info after fix ba34c0a; old behaviour refuted). Every run: ~78k files (exhaustive over special bytes up to length 5, all truncations, mutations, random bytes, writer outputs) through model, normal and ASan parser with 0 disagreements tolerated; CLI histories over 3 deps styles x tricky spellings x modify/delete/create with the command re-running exactly when the path changed and malformed files failing the build.",
+ "Trusted: Coq kernel, hand-written parser/glue models (tied by differential execution), parse_driver.cpp, extraction, comparator. The engine link (a discovered key is appended to the dependency list, so C01/C02 re-run the command) is exercised at the CLI, not proved here. Windows drive-letter branch not modelled.",
+ "DESIGN.md 4/C11")
 NOT_YET = "check not built yet (work proceeds in the order of DESIGN.md section 7); not claimed until a kernel-checked theorem tied to the code by a running correspondence exists"
 
 commits = subprocess.run(["git", "-C", "/repo", "log", "--format=%h %s"], capture_output=True, text=True).stdout.splitlines()
